@@ -727,6 +727,8 @@ func (fx *FuncCtx) tagActive(tag string) bool {
 	switch tag {
 	case "real":
 		return fx.real
+	case "realx":
+		return fx.real && thoroughTier
 	case "noasm":
 		return strings.Contains(fx.cfg, "noasm")
 	}
